@@ -43,17 +43,47 @@ def ClientReady (env : Env) (c : ClientFacts) (p : ProofFacts) (dt db : Nat) : P
   Delay.verifyDelayPeriodPassed env.nowNs env.self c.procTime c.procHeight dt db = .ok ∧
   c.decodes = true ∧ c.consFound = true
 
-theorem verifyMembership_none_iff (env : Env) (c : ClientFacts) (p : ProofFacts) (dt db : Nat) (key value : Bytes) :
-    verifyMembership env c p dt db key value = none ↔ ClientReady env c p dt db ∧ p.proves key value = true := by
+theorem verifyMembership_none_iff (env : Env) (c : ClientFacts) (p : ProofFacts) (dt db : Nat) (path : List Bytes) (value : Bytes) :
+    verifyMembership env c p dt db path value = none ↔ ClientReady env c p dt db ∧ p.proves path value = true := by
   unfold verifyMembership ClientReady
   cases c.active <;> cases c.latest.lt p.height <;> cases c.decodes <;> cases c.consFound <;>
-    cases p.proves key value <;>
+    cases p.proves path value <;>
     cases Delay.verifyDelayPeriodPassed env.nowNs env.self c.procTime c.procHeight dt db <;> simp
 
-theorem proves_iff (p : ProofFacts) (key value : Bytes) :
-    p.proves key value = true ↔
-      p.intact = true ∧ p.builtAt = p.height ∧ p.readKey = key ∧ p.provenValue = some value := by
+theorem proves_iff (p : ProofFacts) (path : List Bytes) (value : Bytes) :
+    p.proves path value = true ↔
+      p.intact = true ∧ p.builtAt = p.height ∧ [p.store, p.readKey] = path ∧ p.provenValue = some value := by
   simp [ProofFacts.proves, and_assoc]
+
+/-- v1: the proof was queried from the store the connection names as the counterparty prefix, for
+    exactly the key the handler derived -/
+theorem proves_v1_iff (p : ProofFacts) (pre key value : Bytes) :
+    p.proves (pathV1 pre key) value = true ↔
+      p.intact = true ∧ p.builtAt = p.height ∧ p.store = pre ∧ p.readKey = key ∧ p.provenValue = some value := by
+  simp [proves_iff, pathV1, and_assoc]
+
+theorem verifyV1_none_iff (env : Env) (c : ClientFacts) (p : ProofFacts) (cn : ConnEnd) (mx : Nat) (key value : Bytes) :
+    verifyV1 env c p cn mx key value = none ↔
+      cn.cpPrefix ≠ [] ∧ ClientReady env c p cn.delay (Delay.getBlockDelay cn.delay mx) ∧
+      p.proves (pathV1 cn.cpPrefix key) value = true := by
+  unfold verifyV1
+  by_cases h : cn.cpPrefix = []
+  · simp [h]
+  · have h' : cn.cpPrefix.isEmpty = false := by simpa using h
+    simp [h', h, verifyMembership_none_iff]
+
+/-- v2: the key the proof was queried for is the handler's key behind the last element of the
+    registered counterparty prefix -/
+theorem pathV2_key (pre : List Bytes) (s k key : Bytes) (h : [s, k] = pathV2 pre key) :
+    ∃ l, pre.getLast? = some l ∧ k = l ++ key := by
+  unfold pathV2 at h
+  cases hl : pre.getLast? with
+  | none => rw [hl] at h; simp at h
+  | some l =>
+    rw [hl] at h
+    refine ⟨l, rfl, ?_⟩
+    have := congrArg List.getLast? h
+    simpa using this
 
 /-! ### stateless validation gives the identifier alphabet -/
 
